@@ -18,7 +18,7 @@ Accept(expData, expGhost, isAppend) ==
   /\ Judge("C13", E.panic = FALSE, Info("unexpected_panic", expData))
   /\ Judge("C13", E.slice = expData, Info("contents", expData))
   /\ Judge("C13", E.slice = FixCk(expGhost), Info("contents_vs_plain_vector", FixCk(expGhost)))
-  /\ Judge("C13", E.len = Len(E.slice), Info("len", expData))
+  /\ Judge("C13", E.len = Len(E.slice) /\ (Has(E, "is_empty") => E.is_empty = (Len(E.slice) = 0)), Info("len", expData))
   /\ Judge("C13", Len(E.slice) < 10 \/ Sum8(E.slice) = 0, Info("checksum", expData))
   \* the generic table is one of the checksummed structures of C01; its Length field is C02's after appends
   /\ Judge("C01", Len(E.slice) < 10 \/ Sum8(E.slice) = 0, Info("checksum", expData))
